@@ -31,6 +31,7 @@ pub struct Facts {
     // answers of the single-validator Delegation query that override the list above:
     // (validator or "*", present, amount, can_redelegate)
     pub full_delegations: Vec<(String, bool, Uint128, Uint128)>,
+    pub chain_validators: Vec<String>,                     // the chain's validator set (StakingQuery::AllValidators)
 }
 
 impl Querier for Facts {
@@ -109,6 +110,21 @@ impl Querier for Facts {
                     accumulated_rewards: vec![],
                 });
                 SystemResult::Ok(ContractResult::Ok(to_json_binary(&DelegationResponse { delegation }).unwrap()))
+            }
+            QueryRequest::Staking(StakingQuery::AllValidators {}) => {
+                let validators: Vec<cosmwasm_std::Validator> = self
+                    .chain_validators
+                    .iter()
+                    .map(|a| cosmwasm_std::Validator {
+                        address: a.clone(),
+                        commission: Decimal::zero(),
+                        max_commission: Decimal::one(),
+                        max_change_rate: Decimal::one(),
+                    })
+                    .collect();
+                SystemResult::Ok(ContractResult::Ok(
+                    to_json_binary(&cosmwasm_std::AllValidatorsResponse { validators }).unwrap(),
+                ))
             }
             QueryRequest::Staking(StakingQuery::BondedDenom {}) => SystemResult::Ok(ContractResult::Ok(
                 to_json_binary(&BondedDenomResponse { denom: "usei".to_string() }).unwrap(),
@@ -191,6 +207,7 @@ pub fn facts_from(q: &Value, hub: &str) -> Facts {
         cw20_balances: arr("cw20_balances").iter().map(|d| (s(&d["token"]), u(&d["balance"]))).collect(),
         failing: arr("failing").iter().map(s).collect(),
         smart: arr("smart").iter().map(|d| (s(&d["contract"]), s(&d["key"]), d["response"].clone())).collect(),
+        chain_validators: arr("chain_validators").iter().map(s).collect(),
         full_delegations: arr("full_delegations")
             .iter()
             .map(|d| {
